@@ -6,7 +6,7 @@ package server
 
 // Frames (modifies clauses) are tracked inside this universe of heap maps; everything outside it
 // (byte buffers, boxed scalars, other packages' structs) is forgotten at every modular call.
-//@ universe F_server_Lock_, F_server_LockManager, F_server_LockDB_, F_server_LockQueue_, F_server_LongWaitLock, F_server_MillisecondWaitLock, F_server_FastKeyValue_, F_server_PriorityMutex_, F_server_Aof, F_server_Arbiter, F_server_Replication, F_protocol_protobuf_, F_server_Subscribe, F_server_Publish, F_server_LockData_, F_protocol_LockDBState_, F_protocol_LockCommand_, E_Pserver_, E_LJPserver_, E_int32, E_server_, MH_, MV_
+//@ universe F_server_Lock_, F_server_LockManager, F_server_LockDB_, F_server_LockQueue_, F_server_LongWaitLock, F_server_MillisecondWaitLock, F_server_FastKeyValue_, F_server_PriorityMutex_, F_server_Aof, F_server_Arbiter, F_server_Replication, F_protocol_protobuf_, F_server_Subscribe, F_server_Publish, F_server_LockData_, F_protocol_LockDBState_, F_protocol_LockCommand_, F_server_Stream, F_server_BinaryServerProtocol_, F_server_TextServerProtocol_, F_server_MemWaiterServerProtocol_, F_server_ProxyServerProtocol_, F_server_TransparencyBinaryServerProtocol_, F_server_TransparencyTextServerProtocol_, F_protocol_TextParser_, E_Pserver_, E_LJPserver_, E_int32, E_server_, MH_, MV_
 
 // ---- interface contracts (assumed at call sites; every implementation in the repository is checked
 // ---- against the frame by a generated "refine" obligation) ----
@@ -242,7 +242,7 @@ package server
 //@   ensures forallref(l, Lock, implies(l != result, lockSame(l)))
 //@   ensures implies(!fresh(result), result.locked == old(result.locked) && result.refCount == old(result.refCount) && result.ackCount == old(result.ackCount) && result.timeouted == old(result.timeouted))
 //@   assumes result.refCount == 0 && result.locked == 0
-//@   modifies Lock.manager, Lock.command, Lock.protocol, Lock.startTime, Lock.expriedTime, Lock.expriedCheckedCount, Lock.timeoutTime, Lock.timeoutCheckedCount, Lock.longWaitIndex, LockManager.refCount@self, LockQueue.*, E_LJPserver_Lock, E_Pserver_Lock, E_int32
+//@   modifies Lock.manager, Lock.command, Lock.protocol, Lock.startTime, Lock.expriedTime, Lock.expriedCheckedCount, Lock.timeoutTime, Lock.timeoutCheckedCount, Lock.longWaitIndex, LockManager.refCount@self, LockQueue.*, E_LJPserver_Lock, E_Pserver_Lock, E_int32, BinaryServerProtocol.*, TextServerProtocol.*, MemWaiterServerProtocol.*, ProxyServerProtocol.*, TransparencyBinaryServerProtocol.*, TransparencyTextServerProtocol.*, Stream.*, StreamWriterBuffer.*, StreamReaderBuffer.*, protocol.TextParser.*
 
 //@ func (*LockManager).AddWaitLock
 //@   requires self != nil && lock != nil && lock.command != nil
@@ -309,14 +309,14 @@ package server
 // ---- value operations (C15); here only their frames ----
 //@ func (*LockManager).ProcessLockData
 //@   assumes command.Rcount == old(command.Rcount) && command.Flag == old(command.Flag) && command.TimeoutFlag == old(command.TimeoutFlag) && command.ExpriedFlag == old(command.ExpriedFlag) && command.Expried == old(command.Expried) && command.Timeout == old(command.Timeout) && command.Count == old(command.Count) && command.LockId == old(command.LockId) && command.LockKey == old(command.LockKey)
-//@   modifies protocol.LockCommand.*, protocol.LockDBState.KeyCount, protocol.LockDBState.SlowKeyCount, LockDB.freeLockManagerHead, LockDB.freeLockManagerTail, LockDB.managerGlockIndex, LockData.*, LockManagerData.isAof, LockManager.currentData, LockManager.fastKeyValue, LockManager.lockKey, LockManager.refCount, Lock.data, PriorityMutex.*, LockDBExecutor.*, LockDBExecutorTask.*, E_Pserver_LockDBExecutor, E_Pserver_LockDBExecutorTask, E_Pserver_LockManager, E_server_FastKeyValue, MH_mapLL16JbyteJPserver_LockManager, MV_mapLL16JbyteJPserver_LockManager
+//@   modifies protocol.LockCommand.*, protocol.LockDBState.KeyCount, protocol.LockDBState.SlowKeyCount, LockDB.freeLockManagerHead, LockDB.freeLockManagerTail, LockDB.managerGlockIndex, LockData.*, LockManagerData.isAof, LockManager.currentData, LockManager.fastKeyValue, LockManager.lockKey, LockManager.refCount, Lock.data, PriorityMutex.*, LockDBExecutor.*, LockDBExecutorTask.*, E_Pserver_LockDBExecutor, E_Pserver_LockDBExecutorTask, E_Pserver_LockManager, E_server_FastKeyValue, MH_mapLL16JbyteJPserver_LockManager, MV_mapLL16JbyteJPserver_LockManager, BinaryServerProtocol.*, TextServerProtocol.*, MemWaiterServerProtocol.*, ProxyServerProtocol.*, TransparencyBinaryServerProtocol.*, TransparencyTextServerProtocol.*, Stream.*, StreamWriterBuffer.*, StreamReaderBuffer.*, protocol.TextParser.*
 //@ func (*LockManager).ProcessExecuteLockCommand
 //@   assumes forallref(c, protocol.LockCommand, implies(!fresh(c), c.Rcount == old(c.Rcount) && c.Flag == old(c.Flag) && c.TimeoutFlag == old(c.TimeoutFlag) && c.LockId == old(c.LockId)))
-//@   modifies protocol.LockCommand.*, protocol.LockDBState.KeyCount, protocol.LockDBState.SlowKeyCount, LockDB.freeLockManagerHead, LockDB.freeLockManagerTail, LockDB.managerGlockIndex, LockData.commandDatas, LockManager.fastKeyValue, LockManager.lockKey, LockManager.refCount, Lock.data, PriorityMutex.*, LockDBExecutor.*, LockDBExecutorTask.*, E_Pserver_LockDBExecutor, E_Pserver_LockDBExecutorTask, E_Pserver_LockManager, E_server_FastKeyValue, MH_mapLL16JbyteJPserver_LockManager, MV_mapLL16JbyteJPserver_LockManager
+//@   modifies protocol.LockCommand.*, protocol.LockDBState.KeyCount, protocol.LockDBState.SlowKeyCount, LockDB.freeLockManagerHead, LockDB.freeLockManagerTail, LockDB.managerGlockIndex, LockData.commandDatas, LockManager.fastKeyValue, LockManager.lockKey, LockManager.refCount, Lock.data, PriorityMutex.*, LockDBExecutor.*, LockDBExecutorTask.*, E_Pserver_LockDBExecutor, E_Pserver_LockDBExecutorTask, E_Pserver_LockManager, E_server_FastKeyValue, MH_mapLL16JbyteJPserver_LockManager, MV_mapLL16JbyteJPserver_LockManager, BinaryServerProtocol.*, TextServerProtocol.*, MemWaiterServerProtocol.*, ProxyServerProtocol.*, TransparencyBinaryServerProtocol.*, TransparencyTextServerProtocol.*, Stream.*, StreamWriterBuffer.*, StreamReaderBuffer.*, protocol.TextParser.*
 //@ func (*LockManager).ProcessRecoverLockData
 //@   modifies LockData.*, LockManagerData.isAof, LockManager.currentData, Lock.data
 //@ func (*LockManager).ProcessAckLockData
-//@   modifies protocol.LockCommand.*, protocol.LockDBState.KeyCount, protocol.LockDBState.SlowKeyCount, LockDB.freeLockManagerHead, LockDB.freeLockManagerTail, LockDB.managerGlockIndex, LockData.*, LockManager.fastKeyValue, LockManager.lockKey, LockManager.refCount, Lock.data, PriorityMutex.*, LockDBExecutor.*, LockDBExecutorTask.*, E_Pserver_LockDBExecutor, E_Pserver_LockDBExecutorTask, E_Pserver_LockManager, E_server_FastKeyValue, MH_mapLL16JbyteJPserver_LockManager, MV_mapLL16JbyteJPserver_LockManager
+//@   modifies protocol.LockCommand.*, protocol.LockDBState.KeyCount, protocol.LockDBState.SlowKeyCount, LockDB.freeLockManagerHead, LockDB.freeLockManagerTail, LockDB.managerGlockIndex, LockData.*, LockManager.fastKeyValue, LockManager.lockKey, LockManager.refCount, Lock.data, PriorityMutex.*, LockDBExecutor.*, LockDBExecutorTask.*, E_Pserver_LockDBExecutor, E_Pserver_LockDBExecutorTask, E_Pserver_LockManager, E_server_FastKeyValue, MH_mapLL16JbyteJPserver_LockManager, MV_mapLL16JbyteJPserver_LockManager, BinaryServerProtocol.*, TextServerProtocol.*, MemWaiterServerProtocol.*, ProxyServerProtocol.*, TransparencyBinaryServerProtocol.*, TransparencyTextServerProtocol.*, Stream.*, StreamWriterBuffer.*, StreamReaderBuffer.*, protocol.TextParser.*
 //@ func (*Lock).ClearLockCommandDatas
 //@   modifies LockData.commandDatas
 //@ func (*LockManager).GetLockData
@@ -643,4 +643,39 @@ package server
 //@ func (*ArbiterVoter).DoCommit
 //@   requires self != nil && self.manager != nil && self.glock != nil && self.manager.ownMember != nil
 //@   ensures C12.commit.majority: implies(isnil(result), len(responses) >= len(self.manager.members)/2 + 1 && self.commitId == self.proposalId)
+//@   modifies all
+
+// ---- C13: the reply writer always keeps room for one 64-byte header ----
+//@ func (*StreamWriterBuffer).WriteToConn
+//@   requires self != nil && !isnil(conn) && 0 <= self.index && self.index <= len(self.buf)
+//@   safe
+//@   loop#1 invariant 0 <= n && 0 <= self.index && self.index <= len(self.buf)
+//@   ensures C13.writer.flushed: implies(isnil(result), self.index == 0)
+//@   modifies StreamWriterBuffer.index@self, E_byte
+
+//@ spec func writerInv(w) = w == nil || (0 <= w.index && w.index + 64 <= len(w.buf))
+//@ func (*BinaryServerProtocol).ProcessLockResultCommand
+//@   requires self != nil && command != nil && self.glock != nil && self.slock != nil && implies(!self.closed, self.stream != nil && !isnil(self.stream.conn) && writerInv(self.stream.writerBuffer))
+//@   safe
+//@   loop#1 invariant 0 <= n
+//@   ensures C13.writer.room: implies(!old(self.closed), writerInv(self.stream.writerBuffer) && self.stream == old(self.stream))
+
+// =====================================================================================================
+// C14: the server's hand-inlined LOCK / UNLOCK frame decoder must agree with the README layout
+// (Magic and Version are checked, not copied, by the inlined decoder)
+// =====================================================================================================
+//@ spec func le16b(b, o) = b[o] + b[o+1]*256
+//@ spec func bytesAtB(a, b, o, n) = forall(k, 0, n, a[k] == b[o+k])
+//@ spec func inlineLockDecode(c, b) = c.CommandType == b[2] && bytesAtB(c.RequestId, b, 3, 16) && c.Flag == b[19] && c.DbId == b[20] && bytesAtB(c.LockId, b, 21, 16) && bytesAtB(c.LockKey, b, 37, 16) && c.Timeout == le16b(b, 53) && c.TimeoutFlag == le16b(b, 55) && c.Expried == le16b(b, 57) && c.ExpriedFlag == le16b(b, 59) && c.Count == le16b(b, 61) && c.Rcount == b[63]
+
+//@ func (*BinaryServerProtocol).ProcessParse
+//@   requires self != nil
+//@   at call ProcessParseLockData assert C14.server.decode-data: lockCommand != nil && inlineLockDecode(lockCommand, buf)
+//@   at call LockDB.Lock assert C14.server.decode-lock: implies(calls(ProcessParseLockData) == 0, inlineLockDecode(lockCommand, buf) && arg2 == lockCommand && arg3 == lockCommand.Flag&0x04)
+//@   at call LockDB.UnLock assert C14.server.decode-unlock: implies(calls(ProcessParseLockData) == 0, inlineLockDecode(lockCommand, buf) && arg2 == lockCommand && arg3 == lockCommand.Flag&0x04)
+//@   modifies all
+
+//@ func (*TransparencyBinaryServerProtocol).ProcessParse
+//@   requires self != nil
+//@   at call ProcessParseLockData assert C14.transparency.decode-data: lockCommand != nil && inlineLockDecode(lockCommand, buf)
 //@   modifies all
